@@ -216,9 +216,24 @@ def targets(prop):
 
 
 # ------------------------------------------------------------------------------------------------ group 3: ArrayLayout
+SLOTF = z3.Function("slot", z3.IntSort(), z3.IntSort())
+SLOTQ = z3.Function("slot_q", z3.IntSort(), z3.IntSort())
+
+
 def slot_int(x):
-    """slot(x) over mathematical integers, x >= 0 (linked to the bit-vector proof of _to_slot_size: the unique multiple of 8 in [x, x+8))"""
-    return ((x + 7) / 8) * 8
+    """slot(x): the contract of _to_slot_size proved in bit-vector mode (group slot_size) -- the multiple of 8 in [x, x+8).
+    Uninterpreted, with the contract as axiom (SLOT_AX), so obligations stay in linear integer arithmetic."""
+    if isinstance(x, int):
+        return (x + 7) // 8 * 8
+    return SLOTF(x)
+
+
+def _slot_ax():
+    x = z3.Int("x!slot")
+    return z3.ForAll([x], z3.And(SLOTF(x) == 8 * SLOTQ(x), x <= SLOTF(x), SLOTF(x) < x + 8), patterns=[SLOTF(x)])
+
+
+SLOT_AX = _slot_ax()
 
 
 def ov_slot(interp, st, f, args, kwargs, node):
@@ -226,7 +241,10 @@ def ov_slot(interp, st, f, args, kwargs, node):
     if isinstance(x, int):
         yield st, (x + 7) // 8 * 8
     else:
-        yield st, slot_int(x)
+        if not getattr(st, "_slot_ax", False):
+            st.assume(SLOT_AX)
+            st._slot_ax = True
+        yield st, SLOTF(x)
 
 
 class _TypeNew:
@@ -873,3 +891,533 @@ def vc_unionref():
 group("unionref", vc_unionref, [(REF, "MetaUnionRef._to_buffer"), (REF, "MetaUnionRef._from_buffer"), (REF, "MetaUnionRef._typeid_from_type"),
                                (REF, "MetaUnionRef._typeid_from_name"), (REF, "MetaUnionRef._type_from_name"), (REF, "MetaUnionRef._type_from_typeid"),
                                (REF, "MetaUnionRef._is_member")], ["C08", "C11", "C01", "C05"])
+
+
+# ------------------------------------------------------------------------------------------------ group 7: StructLayout
+STRUCT = "xobjects/struct.py"
+
+
+def field_type(st, dynamic, k):
+    sz = None
+    if not dynamic:
+        sz = fresh_int(f"size{k}")
+        st.assume(sz >= 0)
+    t = SymObj("FieldType", {"_size": sz, "_inspect_args": "present", "__name__": f"T{k}", "_has_refs": fresh_bool(f"has_refs{k}")})
+    t.closed = True
+    t.absent = {"_update"}
+    return t, sz
+
+
+def struct_env():
+    it = new_interp()
+    it.class_home.update({"Field": STRUCT, "MetaStruct": STRUCT})
+    it.overrides[(TU, "_to_slot_size")] = ov_slot
+    it.extern_names = {"type": _TypeNew()}
+    return it
+
+
+def vc_struct_layout_small():
+    """MetaStruct.__new__ run as a whole for every static/dynamic pattern of up to 3 fields (symbolic sizes): StructLayout.
+    Bounded in the number of fields -- the unbounded argument is group struct_layout_loops."""
+    obs = []
+    its = []
+    con = _contract(STRUCT, "MetaStruct.__new__", [])
+    for n in range(0, 4):
+        for pattern in itertools.product((False, True), repeat=n):
+            it = struct_env()
+            its.append(it)
+            st0 = State()
+            types = [field_type(st0, dyn, k) for k, dyn in enumerate(pattern)]
+            data = PDict({f"f{k}": t for k, (t, _) in enumerate(types)})
+            data.items["not_a_field"] = 17
+            lab = "".join("d" if d else "s" for d in pattern) or "empty"
+            try:
+                for st, out in it.exec_function(con, {"cls": ClassVal("MetaStruct", STRUCT), "name": "S", "bases": (), "data": data}, pre=list(st0.pc)):
+                    if out is None or out[0] != "return" or not isinstance(out[1], PDict):
+                        it.oblige(st, "raises", f"never[{lab}]", False)
+                        continue
+                    d = out[1].items
+                    ob = lambda c, g: it.oblige(st, "post", f"{c}[{lab}]", g if not isinstance(g, bool) else z3.BoolVal(g))
+                    fl = d.get("_fields")
+                    ok = isinstance(fl, PList) and len(fl.items) == n and all(isinstance(f, SymObj) and f.cls == "Field" for f in fl.items)
+                    ob("fields_in_declaration_order", ok and all(f.attrs.get("name") == f"f{k}" and f.attrs.get("index") == k for k, f in enumerate(fl.items)))
+                    if not ok:
+                        continue
+                    F = fl.items
+                    sizes = [s for _, s in types]
+                    if not any(pattern):
+                        cur = z3.IntVal(0)
+                        for k in range(n):
+                            ob(f"offset{k}", F[k].attrs["offset"] == cur)
+                            ob(f"not_reference{k}", F[k].attrs["is_reference"] is False)
+                            cur = cur + slot_int(sizes[k])
+                        ob("size", d.get("_size") == cur)
+                    else:
+                        cur = z3.IntVal(8)
+                        for k in range(n):
+                            if not pattern[k]:
+                                ob(f"offset{k}", F[k].attrs["offset"] == cur)
+                                ob(f"not_reference{k}", F[k].attrs["is_reference"] is False)
+                                cur = cur + slot_int(sizes[k])
+                        dyn = [k for k in range(n) if pattern[k]]
+                        for k in dyn[1:]:
+                            ob(f"offset_word_slot{k}", F[k].attrs["offset"] == cur)
+                            ob(f"is_reference{k}", F[k].attrs["is_reference"] is True)
+                            cur = cur + 8
+                        ob(f"first_dynamic_offset{dyn[0]}", F[dyn[0]].attrs["offset"] == cur)
+                        ob(f"first_dynamic_not_reference{dyn[0]}", F[dyn[0]].attrs["is_reference"] is False)
+                        ob("size_is_dynamic", d.get("_size") is None)
+                    hr = d.get("_has_refs")
+                    ob("has_refs", isinstance(hr, bool) and (z3.Or(*[t.attrs["_has_refs"] for t, _ in types]) if n else z3.BoolVal(False)) == z3.BoolVal(hr))
+                    ob("static_and_dynamic_field_lists", [f.attrs["index"] for f in d["_s_fields"].items] == [k for k in range(n) if not pattern[k]]
+                       and [f.attrs["index"] for f in d["_d_fields"].items] == [k for k in range(n) if pattern[k]])
+            except Unsupported as e:
+                vc_struct_layout_small.undecided.append((lab, str(e)[:150]))
+            obs += it.obligations
+    vc_struct_layout_small.interps = its
+    return obs
+
+
+group("struct_layout_small", vc_struct_layout_small, [(STRUCT, "MetaStruct.__new__"), (STRUCT, "Field.__init__")], ["C05", "C03", "C02"])
+
+
+class FieldList:
+    """an abstract list of Field objects of unknown length (all static / all dynamic), iterated under a LoopSpec"""
+
+    def __init__(self, name, loops, first=None):
+        self.name = name
+        self.loops = loops  # function(list_name) -> LoopSpec, chosen by the harness per use site
+        self.first = first
+
+    def iterate(self, interp, st, s):
+        yield from self.loops(self.name).run(interp, st, s, self)
+
+    def getitem(self, interp, st, i, node):
+        if i == 0 and self.first is not None:
+            return interp._relocate(st, self.first)
+        raise Unsupported("abstract field list: only [0] is available")
+
+    def getslice(self, interp, st, lo, hi, node):
+        if lo == 1 and hi is None:
+            return FieldList(self.name + "[1:]", self.loops)
+        raise Unsupported("abstract field list slice")
+
+
+def abstract_field(st, dynamic, tag):
+    t, sz = field_type(st, dynamic, tag)
+    f = SymObj("Field", {"ftype": t, "offset": None, "is_reference": None, "index": fresh_int("index"), "name": f"field_{tag}"})
+    f.closed = True
+    return f, sz
+
+
+def vc_struct_layout_loops():
+    """The layout loops of MetaStruct.__new__ for any number of fields.  Execution starts at the statement `if is_static:` of the
+    current source (the classification loops before it are covered by struct_layout_small); `fields`, `s_fields`, `d_fields` are
+    abstract lists.  Invariant of every layout loop: the running offset is non-negative and a multiple of 8; each iteration
+    places its field AT the running offset and advances it by the slot-rounded size (8 for an offset word), so offsets are
+    the prefix sums of StructLayout and consecutive parts never overlap."""
+    fnode = src.func_node(STRUCT, "MetaStruct.__new__")
+    body = src.body_of(fnode)
+    k0 = None
+    for k, stmt in enumerate(body):
+        if isinstance(stmt, ast.If) and isinstance(stmt.test, ast.Name) and stmt.test.id == "is_static":
+            k0 = k
+    if k0 is None:
+        raise Unsupported("MetaStruct.__new__: statement `if is_static:` not found")
+    con = _contract(STRUCT, "MetaStruct.__new__", [])
+    obs = []
+    its = []
+    for static in (True, False):
+        it = struct_env()
+        its.append(it)
+        it.contract = con
+        lab = "static" if static else "dynamic"
+
+        def make_loop(list_name, it=it, lab=lab):
+            dyn_elems = list_name.startswith("d_fields")
+            is_outer = (list_name == "fields" and lab == "dynamic")
+
+            LB = 0 if lab == "static" else 8  # a dynamic struct starts with its size word
+
+            def init(interp, st, k, node):
+                off = st.locals["offset"]
+                if not is_outer:
+                    interp.oblige(st, f"inv{k}.init", f"offset_after_header_multiple_of_8[{lab}:{list_name}]", z3.And(off >= LB, off % 8 == 0) if not isinstance(off, int) else z3.BoolVal(off >= LB and off % 8 == 0), node.lineno)
+
+            def head(interp, st):
+                OFF = fresh_int("OFF")
+                st.locals["offset"] = OFF
+                st.assume(z3.And(OFF >= LB, OFF % 8 == 0) if not is_outer else z3.And(OFF >= 0, OFF % 8 == 0))
+                return {"OFF": OFF}
+
+            def alts():
+                def mk(st):
+                    f, sz = abstract_field(st, dyn_elems, list_name)
+                    f.spec_size = sz
+                    return f
+                yield ("dynamic_field" if dyn_elems else "static_field"), mk
+
+            def preserve(interp, st, g, label, elem, k, node):
+                off2 = st.locals["offset"]
+                if is_outer:
+                    # one pass of the outer loop recomputes the whole dynamic layout; nothing is carried between passes
+                    interp.oblige(st, f"inv{k}.preserve", f"offset_nonneg_multiple_of_8[{lab}:{list_name}]", z3.And(off2 >= 0, off2 % 8 == 0), node.lineno)
+                    # after every pass (there is at least one: a dynamic struct has a field) the first dynamic field sits after the
+                    # header: static fields, then one offset word per later dynamic field
+                    fd = st.ghost["__first"]
+                    off = fd.attrs["offset"]
+                    interp.oblige(st, f"inv{k}.preserve", f"first_dynamic_field_placed_after_the_header[{lab}]",
+                                  z3.And(off >= 8, off % 8 == 0, off == off2) if off is not None else z3.BoolVal(False), node.lineno)
+                    interp.oblige(st, f"inv{k}.preserve", f"first_dynamic_field_not_reference[{lab}]", z3.BoolVal(fd.attrs["is_reference"] is False), node.lineno)
+                    return
+                e = interp._relocate(st, elem)
+                OFF = g["OFF"]
+                ob = lambda c, gl: interp.oblige(st, f"inv{k}.preserve", f"{c}[{lab}:{list_name}]", gl if not isinstance(gl, bool) else z3.BoolVal(gl), node.lineno)
+                ob("field_placed_at_running_offset", e.attrs["offset"] == OFF)
+                if list_name == "d_fields[1:]":
+                    ob("is_reference", e.attrs["is_reference"] is True)
+                    ob("advance_by_one_slot", off2 == OFF + 8)
+                else:
+                    ob("not_reference", e.attrs["is_reference"] is False)
+                    ob("advance_by_slot_size", off2 == OFF + slot_int(elem.spec_size))
+                    ob("next_part_after_this_one", off2 >= OFF + elem.spec_size)
+                ob("offset_after_header_multiple_of_8", z3.And(off2 >= LB, off2 % 8 == 0))
+            from pyvc.interp_ext import LoopSpec
+
+            return LoopSpec(init, head, alts, preserve)
+
+        st0 = State()
+        first_dyn, _ = abstract_field(st0, True, "first_dynamic")
+        fields = FieldList("fields", make_loop)
+        s_fields = FieldList("s_fields", make_loop)
+        d_fields = FieldList("d_fields", make_loop, first=first_dyn)
+        data = PDict({"_fields": fields})
+        local_vars = {"cls": ClassVal("MetaStruct", STRUCT), "name": "S", "bases": (), "data": data, "offset": 0, "fields": fields,
+                      "s_fields": s_fields, "d_fields": d_fields, "is_static": static, "findex": fresh_int("findex")}
+        from pyvc.core import Frame
+        from pyvc.interp import background_axioms
+
+        st = State()
+        st.heap_sorts = it.heap_sorts()
+        for ax in background_axioms():
+            st.assume(ax)
+        for f in st0.pc:
+            st.assume(f)
+        fr = Frame(con.qualname, local_vars)
+        fr.module = STRUCT
+        fr.fnode = fnode
+        st.frames.append(fr)
+        st.ghost["__first"] = first_dyn
+        try:
+            for st1, out in it.exec_block(st, [body[k0]]):
+                if out is not None:
+                    it.oblige(st1, "raises", f"never[{lab}]", False)
+                    continue
+                if not static:
+                    it.oblige(st1, "post", f"size_is_dynamic[{lab}]", z3.BoolVal(st1.locals.get("size") is None))
+                else:
+                    sz = st1.locals.get("size")
+                    it.oblige(st1, "post", f"size_is_final_offset[{lab}]", z3.And(sz >= 0, sz % 8 == 0) if sz is not None else z3.BoolVal(False))
+        except Unsupported as e:
+            vc_struct_layout_loops.undecided.append((lab, str(e)[:150]))
+        obs += it.obligations
+    vc_struct_layout_loops.interps = its
+    return obs
+
+
+group("struct_layout_loops", vc_struct_layout_loops, [(STRUCT, "MetaStruct.__new__")], ["C05", "C03", "C02"])
+
+
+# ------------------------------------------------------------------------------------------------ group 8: Struct objects (<= 3 fields)
+class TypeContractObj:
+    """an abstract field type obeying TypeContract (DESIGN 4.3):
+    TC1 _inspect_args(v) -> Info(size = SZ(v) >= 0);  TC2 _to_buffer(buf, off, v, info) changes only bytes of [off, off+size)
+    (size = info.size, or SZ(v) when info is None) and needs that extent inside the buffer;  TC3 _from_buffer(buf, off) -> view"""
+
+    def __init__(self, name, static_size, st):
+        self.name = name
+        self.static_size = static_size
+        self.SZ = z3.Function(f"SZ_{name}", z3.IntSort(), z3.IntSort())  # size of a value (by value id)
+        self.writes = []
+
+    def size_of(self, st, v):
+        if self.static_size is not None:
+            return self.static_size
+        s = self.SZ(z3.IntVal(getattr(v, "uid", 0)))
+        st.assume(s >= 8)  # TC1: a dynamically sized object starts with its 8-byte size word
+        return s
+
+    def as_symobj(self):
+        T = SymObj("FieldType", {"_size": self.static_size, "__name__": self.name, "_has_refs": False})
+        T.closed = True
+        T.absent = {"_update"}
+        tc = self
+
+        class InspectArgs:
+            def call(self, interp, st, args, kwargs, node):
+                v = args[0] if args else None
+                o = SymObj("Info", {"size": tc.size_of(st, v)})
+                o.closed = True
+                yield st, o
+
+        class ToBuffer:
+            def call(self, interp, st, args, kwargs, node):
+                buf, off, v = args[0], args[1], args[2]
+                info = args[3] if len(args) > 3 else kwargs.get("info")
+                size = info.attrs["size"] if isinstance(info, SymObj) else tc.size_of(st, v)
+                b = interp._relocate(st, buf)
+                any_bytes = z3.Array(fresh_name("written"), z3.IntSort(), z3.IntSort())
+                b.write_bytes(interp, st, off, size, lambda x: any_bytes[x], node, f"{tc.name}._to_buffer")
+                st.recorded = getattr(st, "recorded", []) + [("write", tc.name, off, size, v, any_bytes)]
+                yield st, None
+
+        class FromBuffer:
+            def call(self, interp, st, args, kwargs, node):
+                st.recorded = getattr(st, "recorded", []) + [("read", tc.name, args[0], args[1])]
+                yield st, ("view-of", tc.name, getattr(args[0], "uid", None), args[1])
+        T.attrs["_inspect_args"] = InspectArgs()
+        T.attrs["_to_buffer"] = ToBuffer()
+        T.attrs["_from_buffer"] = FromBuffer()
+        return T
+
+
+def build_struct_class(it, pattern):
+    """run the real MetaStruct.__new__ on a class body with len(pattern) fields; returns (cls, fields, types, pc)"""
+    con = _contract(STRUCT, "MetaStruct.__new__", [])
+    st0 = State()
+    tcs = []
+    data = PDict({})
+    for k, dyn in enumerate(pattern):
+        sz = None
+        if not dyn:
+            sz = fresh_int(f"size{k}")
+            st0.assume(sz >= 0)
+        tc = TypeContractObj(f"T{k}", sz, st0)
+        tcs.append(tc)
+        data.items[f"f{k}"] = tc.as_symobj()
+    outs = list(it.exec_function(con, {"cls": ClassVal("MetaStruct", STRUCT), "name": "S", "bases": (), "data": data}, pre=list(st0.pc)))
+    if len(outs) != 1 or outs[0][1] is None or outs[0][1][0] != "return":
+        raise Unsupported("MetaStruct.__new__ did not return on a single path")
+    st, out = outs[0]
+    d = out[1].items
+    cls = SymObj("MetaStruct", dict(d))
+    cls.attrs["__name__"] = "S"
+    cls.closed = True
+    cls.instance_class = "Struct"
+    return cls, d["_fields"].items, tcs, list(st.pc)
+
+
+def vc_struct_small():
+    """Struct._from_buffer (HandleInv), Field.get_offset/__get__ (documented field address), Struct._to_buffer for dict values
+    (size word, offset words, every field written inside its own slot-rounded extent, extents disjoint and inside the object):
+    classes of up to 3 fields built by the real MetaStruct.__new__; field types are abstract (TypeContract)."""
+    obs = []
+    its = []
+    for n in range(1, 4):
+        for pattern in itertools.product((False, True), repeat=n):
+            lab = "".join("d" if d else "s" for d in pattern)
+            it = struct_env()
+            its.append(it)
+            it.class_home.update({"Struct": STRUCT, "NumpyScalar": "xobjects/scalar.py"})
+            i64 = int64_scalar()
+            it.extern_names.update({"Int64": i64, "object": ObjectBuiltin()})
+            XB.install_int64(it, i64)
+
+            def construct_Info(st, args, kwargs, node):
+                o = SymObj("Info", dict(kwargs))
+                o.closed = True
+                yield st, o
+            it.construct_Info = construct_Info
+            try:
+                cls, F, tcs, pc = build_struct_class(it, pattern)
+                it.obligations = []  # the layout obligations belong to the struct_layout groups
+                dyn = [k for k in range(n) if pattern[k]]
+                buf = XB.XBuf("buf")
+                o = fresh_int("offset")
+                # ---------------- reader side: view + field addresses
+                con = _contract(STRUCT, "Struct._from_buffer", [])
+                it.contract = con
+                hdr = F[dyn[0]].attrs["offset"] if dyn else None
+                pre = pc + [o >= 0, buf.cap >= 0, buf.cap < 2 ** 62]
+                if dyn:
+                    pre += [o + hdr + 8 <= buf.cap]  # the header and the first word after it lie in the image (the view reads them)
+                for st, out in it.exec_function(con, {"cls": cls, "buffer": buf, "offset": o}, pre=pre):
+                    if out is None or out[0] != "return":
+                        it.oblige(st, "raises", f"never[{lab}]", False)
+                        continue
+                    h = out[1]
+                    ob = lambda c, g: it.oblige(st, "post", f"{c}[{lab}]", g if not isinstance(g, bool) else z3.BoolVal(g))
+                    ob("buffer_and_offset", getattr(h.attrs.get("_buffer"), "uid", None) == buf.uid and h.attrs.get("_offset") is o)
+                    offs = h.attrs.get("_offsets")
+                    ob("offsets_cached_for_dynamic_fields", isinstance(offs, PDict) and sorted(offs.items) == dyn)
+                    if isinstance(offs, PDict):
+                        for k in dyn[1:]:
+                            ob(f"offset_word{k}", offs.items[k] == XB.W8(buf.mem, o + F[k].attrs["offset"]))
+                    if dyn:
+                        ob("size_word", h.attrs.get("_size") == XB.W8(buf.mem, o))
+                    # Field.get_offset / __get__ for every field
+                    for k in range(n):
+                        want = o + F[k].attrs["offset"] if (k not in dyn[1:]) else o + XB.W8(buf.mem, o + F[k].attrs["offset"])
+                        hq = it._relocate(st, h)
+                        stq = st.clone()
+                        fobj = F[k]
+                        fobj.attrs.setdefault("is_union", None)
+                        for st2, res in it.call_function(stq, FuncVal(STRUCT, "Field.get_offset", fobj), [it._relocate(stq, h)], {}, None):
+                            ok = isinstance(res, tuple) and len(res) == 2
+                            it.oblige(st2, "post", f"field{k}_address_is_documented[{lab}]", res[1] == want if ok else z3.BoolVal(False))
+                        stq = st.clone()
+                        for st2, res in it.call_function(stq, FuncVal(STRUCT, "Field.__get__", fobj), [it._relocate(stq, h)], {}, None):
+                            ok = isinstance(res, tuple) and res[0] == "view-of" and res[1] == f"T{k}"
+                            it.oblige(st2, "post", f"field{k}_read_through_its_type[{lab}]", z3.BoolVal(ok))
+                            if ok:
+                                it.oblige(st2, "post", f"field{k}_read_address[{lab}]", res[3] == want)
+                obs += it.obligations
+                it.obligations = []
+                # ---------------- writer side: dict value, info computed by the class's own _inspect_args
+                vals = {f"f{k}": SymObj("Value", {}) for k in range(n)}
+                value = PDict(dict(vals))
+                con2 = _contract(STRUCT, "Struct._to_buffer", [])
+                it.contract = con2
+                sizes = [tcs[k].size_of(State(), vals[f"f{k}"]) for k in range(n)]
+                # extent reserved by the caller: the size _inspect_args reports (static: cls._size)
+                if dyn:
+                    total = hdr
+                    for k in dyn:
+                        total = total + slot_int(sizes[k])
+                else:
+                    total = cls.attrs["_size"]
+                pre2 = pc + [o >= 0, buf.cap >= 0, buf.cap < 2 ** 62, o + total <= buf.cap] + [(s >= 8 if pattern[k] else s >= 0) for k, s in enumerate(sizes) if not isinstance(s, int)]
+                m0 = buf.mem
+                for st, out in it.exec_function(con2, {"cls": cls, "buffer": buf, "offset": o, "value": value, "info": None}, pre=pre2):
+                    if out is not None and out[0] == "raise":
+                        it.oblige(st, "raises", f"never[{lab}]", False, out[2])
+                        continue
+                    b = it._relocate(st, buf)
+                    ob = lambda c, g: it.oblige(st, "post", f"{c}[{lab}]", g if not isinstance(g, bool) else z3.BoolVal(g))
+                    ob("frame_whole_object", forall_x(lambda x: z3.Implies(z3.Or(x < o, x >= o + total), b.mem[x] == m0[x])))
+                    wr = [r for r in getattr(st, "recorded", []) if r[0] == "write"]
+                    ob("every_field_written_once", sorted(r[1] for r in wr) == [f"T{k}" for k in range(n)])
+                    ext = {}
+                    cur = hdr
+                    for k in dyn:
+                        ext[k] = (cur, slot_int(sizes[k]))
+                        cur = cur + slot_int(sizes[k])
+                    for k in range(n):
+                        if k not in dyn:
+                            ext[k] = (F[k].attrs["offset"], slot_int(sizes[k]))
+                    for r in wr:
+                        k = int(r[1][1:])
+                        ob(f"field{k}_written_at_documented_offset", r[2] == o + ext[k][0])
+                        ob(f"field{k}_value", r[4] is vals[f"f{k}"] or getattr(r[4], "uid", 0) == vals[f"f{k}"].uid)
+                        ob(f"field{k}_extent_inside_object", z3.And(ext[k][0] >= 0, ext[k][0] + ext[k][1] <= total))
+                        wb, wsz, woff = r[5], r[3], r[2]
+                        ob(f"field{k}_bytes_survive_later_writes", forall_x(lambda x: z3.Implies(z3.And(0 <= x, x < wsz), b.mem[woff + x] == wb[x])))
+                    for a in range(n):
+                        for c in range(a + 1, n):
+                            ob(f"fields{a}{c}_disjoint", z3.Or(ext[a][0] + ext[a][1] <= ext[c][0], ext[c][0] + ext[c][1] <= ext[a][0]))
+                    for k in range(n):
+                        ob(f"field{k}_slot_aligned", ext[k][0] % 8 == 0)
+                obs += it.obligations
+            except Unsupported as e:
+                vc_struct_small.undecided.append((lab, str(e)[:160]))
+                obs += it.obligations
+    vc_struct_small.interps = its
+    return obs
+
+
+group("struct_small", vc_struct_small, [(STRUCT, "Struct._from_buffer"), (STRUCT, "Field.get_offset"), (STRUCT, "Field.__get__"), (STRUCT, "Struct._to_buffer"),
+                                       (STRUCT, "Struct._set_offsets"), (STRUCT, "MetaStruct.__new__.<locals>._inspect_args"), (STRUCT, "Field.value_from_args"),
+                                       ("xobjects/typeutils.py", "dispatch_arg")], ["C03", "C05", "C06", "C02", "C01"])
+
+
+# ------------------------------------------------------------------------------------------------ group 9: scalar codec
+SCAL = "xobjects/scalar.py"
+
+
+class _DType:
+    def __init__(self, isz):
+        self.isz = isz
+        self.enc_mem = None
+
+    def getattr(self, interp, st, attr, node):
+        if attr == "type":
+            yield st, XB._M(lambda i, s, a, k, n: _NpScalar(self, a[0]))
+            return
+        if attr == "itemsize":
+            yield st, self.isz
+            return
+        raise Unsupported(f"dtype.{attr}")
+
+
+class _NpScalar:
+    """dtype.type(value): AX-scalar-codec: tobytes() has exactly itemsize bytes ENC(value); frombuffer(ENC(v), dtype)[0] == dtype.type(v)"""
+
+    def __init__(self, dt, value):
+        self.dt, self.value = dt, value
+
+    def getattr(self, interp, st, attr, node):
+        if attr == "tobytes":
+            def mk(i, s, a, k, n):
+                m = z3.Array(fresh_name("enc"), z3.IntSort(), z3.IntSort())
+                return XB.ByteStr(self.dt.isz, m, ("enc", self.value))
+            yield st, XB._M(mk)
+            return
+        raise Unsupported(f"numpy scalar .{attr}")
+
+
+class _DecodedArray:
+    def __init__(self, data, dt):
+        self.data, self.dt = data, dt
+
+    def getitem(self, interp, st, i, node):
+        if i != 0:
+            raise Unsupported("frombuffer(...)[k], k != 0")
+        return ("decoded", self.data, self.dt)
+
+
+def vc_scalar_codec():
+    """NumpyScalar._to_buffer writes exactly its itemsize bytes (the encoding of the value) at the offset; _from_buffer decodes
+    exactly those bytes; so read-after-write returns dtype.type(value) by the numpy codec axiom (C01, C03, C13)"""
+    obs = []
+    it = new_interp()
+    it.class_home["NumpyScalar"] = SCAL
+    isz = fresh_int("itemsize")
+    dt = _DType(isz)
+    sc = SymObj("NumpyScalar", {"_size": isz, "_dtype": dt, "__name__": "Scalar"})
+    sc.closed = True
+
+    def bi_np_frombuffer(st, f, args, kw, node):
+        data = args[0]
+        if not isinstance(data, XB.ByteStr) or kw.get("dtype") is not dt:
+            raise Unsupported("np.frombuffer arguments")
+        it.safety(st, "ValueError", XB.to_z3(data.n) == isz, node)  # buffer size must be a multiple of the item size; [0] needs one item
+        return _DecodedArray(data, dt)
+    it.bi_np_frombuffer = bi_np_frombuffer
+    buf = XB.XBuf("buf")
+    o = fresh_int("offset")
+    val = SymObj("Value", {})
+    pre = [isz >= 1, isz <= 16, o >= 0, o + isz <= buf.cap, buf.cap >= 0]
+    m0 = buf.mem
+    con = _contract(SCAL, "NumpyScalar._to_buffer", [])
+    for st, out in it.exec_function(con, {"self": sc, "buffer": buf, "offset": o, "value": val, "info": None}, pre=pre):
+        if out is not None and out[0] == "raise":
+            it.oblige(st, "raises", "never", False, out[2])
+            continue
+        b = it._relocate(st, buf)
+        it.oblige(st, "post", "frame_exactly_itemsize_bytes", forall_x(lambda x: z3.Implies(z3.Or(x < o, x >= o + isz), b.mem[x] == m0[x])))
+        it.contract = _contract(SCAL, "NumpyScalar._from_buffer", [])
+        for st2, res in it.call_function(st.clone(), FuncVal(SCAL, "NumpyScalar._from_buffer", sc), [b, o], {}, None):
+            ok = isinstance(res, tuple) and res[0] == "decoded" and isinstance(res[1].tag, tuple) and res[1].tag[0] == "slice"
+            it.oblige(st2, "post", "decodes_a_slice_of_the_buffer", z3.BoolVal(ok))
+            if ok:
+                it.oblige(st2, "post", "reads_exactly_the_written_bytes", z3.And(XB.to_z3(res[1].tag[2]) == o, XB.to_z3(res[1].n) == isz))
+                # the bytes read are the bytes written: hypotheses of AX-scalar-codec
+                wr = [r for r in getattr(st2, "recorded", [])]
+                it.oblige(st2, "post", "read_bytes_equal_written_encoding", forall_x(lambda x: z3.Implies(z3.And(0 <= x, x < isz), res[1].mem[x] == b.mem[o + x])))
+        it.contract = con
+    obs += it.obligations
+    vc_scalar_codec.interps = [it]
+    return obs
+
+
+group("scalar_codec", vc_scalar_codec, [(SCAL, "NumpyScalar._to_buffer"), (SCAL, "NumpyScalar._from_buffer")], ["C01", "C03", "C13", "C10"])
